@@ -146,6 +146,63 @@ def job_fields(ctx, mode, form, tkind, zkind, ranges=None, K=C.KWIDE, pins=None)
                    bounds={"year": "K in %s" % (K,), "windows": {n: WIN[n] for n in names}}, sample_every=100)
 
 
+DEC_FRACTIONS = [0.5, 0.25, 0.0, 0.999999]
+
+
+def job_fields_decimal(ctx, mode, unit, frac):
+    """the decimal forms: hour / minute / second given as an integer plus a (concrete) fraction; the integer parts
+    are symbolic in their windows.  24:00 is the end of the day only with zero minutes, seconds and fractions."""
+    data = ctx.data
+    C.set_mode(data, mode)
+    install_range_summary(data, mode)
+    names = {"hour": ["hour_of_day"], "minute": ["hour_of_day", "minute_of_hour"],
+             "second": ["hour_of_day", "minute_of_hour", "second_of_minute"]}[unit]
+    dec_kw = {"hour": "hour_of_day_decimal", "minute": "minute_of_hour_decimal", "second": "second_of_minute_decimal"}[unit]
+
+    def make(e):
+        i = {"year": C.year_input(e, "", C.KWIDE), "month_of_year": 12, "day_of_month": 31}
+        for n in names:
+            i[n] = e.var(SHORT[n], *WIN[n])
+        return i
+
+    def body(i):
+        kw = dict(i)
+        kw[dec_kw] = frac
+        return data.TimePoint(**kw)
+
+    def post(i, out):
+        g = i.get
+        h, mi, se = g("hour_of_day"), g("minute_of_hour", 0), g("second_of_minute", 0)
+        inr = [L(h) >= 0, L(mi) >= 0, L(mi) <= 59, L(se) >= 0, L(se) <= 59]
+        if frac > 0:
+            # h + f, m + f, s + f stay below 24 / 60 / 60 exactly when the integer parts do; 24 + anything > 0 is not a time
+            valid = z3.And(inr + [L(h) <= 23])
+        else:
+            valid = z3.And(inr + [z3.Or(L(h) <= 23, z3.And(L(h) == 24, L(mi) == 0, L(se) == 0))])
+        if out[0] == "exc":
+            exc = out[1]
+            obs = [("refusal is a ValueError subclass", isinstance(exc, ValueError))]
+            if isinstance(exc, ValueError):
+                obs.append(("every in-range decimal time is accepted", z3.Not(valid)))
+            return obs
+        return [("no impossible decimal time is admitted", valid)]
+
+    def case_of(v, i):
+        kw = {"year": C.year_value(v), "month_of_year": 12, "day_of_month": 31, dec_kw: frac}
+        for n in names:
+            kw[n] = v[SHORT[n]]
+        return {"check": "fields-decimal", "mode": mode, "unit": unit, "kw": kw}
+
+    def zsc(i):
+        d = {"decimal field": z3.BoolVal(True)}
+        if frac > 0:
+            d["24 with a fraction"] = L(i["hour_of_day"]) == 24
+        return d
+
+    return sym_run("fields-decimal[%s,%s,%s]" % (mode, unit, frac), make, None, body, post, case_of, scenarios_z3=zsc,
+                   bounds={"fraction": frac, "windows": {n: WIN[n] for n in names}}, sample_every=100)
+
+
 def job_timezone(ctx):
     """TimeZone(hours, minutes) directly"""
     data = ctx.data
@@ -287,6 +344,18 @@ def replay(case, M_):
                 return True, "TimeZone(%s, %s) raised %s (not a ValueError)" % (case["h"], case["m"], type(exc).__name__)
             return got != exp, "TimeZone(%s, %s) accepted=%s, valid=%s" % (case["h"], case["m"], got, exp)
         kw = case["kw"]
+        if case["check"] == "fields-decimal":
+            f = [kw.get(k) or 0 for k in ("hour_of_day_decimal", "minute_of_hour_decimal", "second_of_minute_decimal")]
+            h, mi, se = kw["hour_of_day"], kw.get("minute_of_hour", 0), kw.get("second_of_minute", 0)
+            exp = 0 <= mi <= 59 and 0 <= se <= 59 and (0 <= h <= 23 or (h == 24 and mi == 0 and se == 0 and not any(f)))
+            try:
+                data.TimePoint(**kw)
+                got = True
+            except ValueError:
+                got = False
+            except Exception as exc:
+                return True, "TimePoint(%s) raised %s: %s (not a ValueError)" % (kw, type(exc).__name__, exc)
+            return got != exp, "TimePoint(%s) accepted=%s but the time of day is %s" % (kw, got, "valid" if exp else "impossible")
         exp = py_valid_kw(mode, case["form"], kw)
         try:
             p = data.TimePoint(**kw)
@@ -319,6 +388,9 @@ def jobs(tier):
             J.append(("job_fields", dict(mode=mode, form="week", tkind="h", zkind="m", K=(4, 5), ranges={"W": (52, 54)})))
             J.append(("job_fields", dict(mode=mode, form="year-only", tkind="hms", zkind="none", K=(4, 5))))
             J.append(("job_fields", dict(mode=mode, form="year-only", tkind="none", zkind="hm", K=(4, 5))))
+    for unit in ("hour", "minute", "second"):
+        for frac in DEC_FRACTIONS:
+            J.append(("job_fields_decimal", dict(mode="gregorian", unit=unit, frac=frac)))
     # text clause, bounded: fully symbolic ASCII strings and mutations of valid expressions
     TR = {"assumed_time_zone": (0, 0), "allow_truncated": True}
     for kind in ("timepoint", "duration", "recurrence"):
@@ -341,7 +413,9 @@ INFO = {
                    "the legal ranges (month -2..15, day -2..34, day-of-year -2..370, week -2..56, weekday -2..10, hour -2..27, "
                    "minute/second -2..62, zone hour -101..101, zone minute -62..62), every year, each date notation, partial "
                    "notations and conflicting notations: accepted <=> oracle-valid in the active calendar mode; a refusal is a "
-                   "ValueError subclass; an accepted object carries exactly the given values. Text clause (bounded): the three parsers on strings "
+                   "ValueError subclass; an accepted object carries exactly the given values. Decimal forms: hour / minute / second as a "
+                   "symbolic integer in the same windows plus a fraction from {0, 0.25, 0.5, 0.999999}: accepted <=> a possible time "
+                   "of day (24 only as 24:00:00 with no fraction). Text clause (bounded): the three parsers on strings "
                    "with fully symbolic printable-ASCII characters (strings up to 6-7 characters, and every 1-3 character mutation window of 18 valid "
                    "expressions) either return an object or raise an error derived from ValueError, and the exploration terminates.",
     "bounds": {"quick": {"years": "-1 000 000..999 999 (date-only jobs); 1600..2399 for the jobs that add time and zone fields",
@@ -351,10 +425,10 @@ INFO = {
                 "expressions with every window of 1-3 consecutive characters replaced by symbolic printable-ASCII characters are decided; "
                 "non-ASCII characters (e.g. non-ASCII digits) and longer splices are outside",
                 "the numeric value of floats converted from garbage text (only whether float() accepts the text is decided)",
-                "non-integer field values, decimal fields", "truncated points"],
+                "non-integer field values; decimal fractions other than the four listed", "truncated points"],
     "assumptions": ["get_days_in_year_range runs as its closed form (C03)"],
 }
 NEEDS_STRING_VALIDATION = True
-REQUIRED_SCENARIOS = {"all": ["garbage:timepoint", "garbage:duration", "garbage:recurrence", "mutated template", "fully symbolic text", "month 0", "month 13", "30 feb", "29 feb", "31st", "day 366", "day 0", "week 53", "weekday 8",
+REQUIRED_SCENARIOS = {"all": ["decimal field", "24 with a fraction", "garbage:timepoint", "garbage:duration", "garbage:recurrence", "mutated template", "fully symbolic text", "month 0", "month 13", "30 feb", "29 feb", "31st", "day 366", "day 0", "week 53", "weekday 8",
                               "24:00:00", "24:01", "second 60", "zone parts of conflicting sign", "zone -00:30", "year 0",
                               "timezone ctor"]}
